@@ -108,6 +108,9 @@ var (
 	YieldInCtor  bool
 	YieldInClose bool
 	OnCtor       func(slot int)
+	OnFault      func()
+	// ClosePanicMask: bit slot set => Close of instances of that slot panics
+	ClosePanicMask int
 	OnClose      func(in *Inst)
 
 	// ActiveCloses is maintained by the harness around container Close calls.
@@ -121,6 +124,9 @@ const (
 	FaultNil     = 2
 	FaultPanic   = 3
 	FaultWrapped = 4
+	// FaultCancel: the constructor succeeds, but first calls OnFault (the harness
+	// cancels the context it gave to BuildWithContext there)
+	FaultCancel = 5
 )
 
 // ---- value-typed disposables: instances that are equal as interface values
@@ -223,6 +229,10 @@ func mk(b *Base, slot, variant, kind int, args ...any) (err error, isNil bool) {
 		return nil, true
 	case FaultPanic:
 		panic(PanicVal)
+	case FaultCancel:
+		if OnFault != nil {
+			OnFault()
+		}
 	}
 	in := &Inst{ID: len(Log), Slot: slot, Variant: variant, Kind: kind}
 	recordArgs(in, args)
@@ -315,6 +325,9 @@ func (b *Base) doClose() error {
 	Events = append(Events, Event{s, "close", in, in.Slot})
 	if OnClose != nil {
 		OnClose(in)
+	}
+	if !in.Aux && ClosePanicMask&(1<<in.Slot) != 0 {
+		panic(PanicVal)
 	}
 	if in.CloseErr {
 		return ErrClose
